@@ -904,7 +904,8 @@ class ValDomain:
 
     def const(self, x):
         if x != x or x in (float("inf"), float("-inf")):
-            raise Unsupported("non-finite constant")
+            # evaluation is demand-driven: a constant is only read on the selected path
+            raise Undefined(f"non-finite constant {x} on the selected path")
         return Val(Fraction(x))
 
     def truth(self, x: Val):
